@@ -33,7 +33,10 @@ func (w *fsWallet) startFilesystemListener(ctx context.Context) error {
 		return nil
 	}
 	watcher, err := fsnotify.NewWatcher()
-	if err == nil {
+	if err != nil {
+		// No listener loop is started, so nothing else would close the done channel that Close() waits on
+		close(w.fsListenerDone)
+	} else {
 		go w.fsListenerLoop(ctx, func() {
 			_ = watcher.Close()
 			close(w.fsListenerDone)
